@@ -101,6 +101,13 @@ SigD(p, C, O, n, S, M) ==
     IF p.op = "pred" THEN [o |-> o, s |-> [t \in 1..(n - o) |-> PredIA(p, cl[t], cr[t], M)]]
     ELSE [o |-> o, s |-> SigC([p EXCEPT !.l = VarL, !.r = VarR], [v \in {"L_", "R_"} |-> IF v = "L_" THEN cl ELSE cr], n - o, S, M)]
 
+\* two ASTs denote the same dense-time signal transformer on all short cell sequences (cf. Sem!SemEq)
+SemEqC(p, q, S, M) ==
+  LET vs == VarsOf(p) \cup VarsOf(q)
+      maxN == IF Cardinality(vs) <= 1 THEN 3 ELSE IF Cardinality(vs) = 2 THEN 2 ELSE 1 IN
+  IF ~DenseOK(p) \/ ~DenseOK(q) THEN p = q
+  ELSE \A n \in 1..maxN : \A C \in [vs -> [1..n -> {-2 * S, S, 3 * S}]] : SigC(p, C, n, S, M) = SigC(q, C, n, S, M)
+
 ---------------------------------------------------------------------------
 \* Boolean satisfaction on cells (property C07 in dense time), defined independently of SigC
 RECURSIVE SatC(_, _, _, _)
